@@ -1248,6 +1248,22 @@ def check_scenario(ctx: fw.Ctx, sc: dict, cases: list[fw.Case], label: str = '')
     else:
         term = f'still_waiting {lbls}'
     cases.append(fw.Case(term, data, diag=f'rejected_at init {lbls} 0'))
+    # the notion "internal step" (what the progress / termination theorems are about) against what the operator really did:
+    #  - every label that is not the environment's or user code's doing must be an internal candidate where it happens;
+    #  - where the real operator was seen doing nothing by itself for 40 virtual seconds, the model state is quiescent;
+    #  - after the (single) stop trigger the model, driven by internal steps alone, reaches Return as the operator did.
+    extra = ctx.__dict__.setdefault('c20_extra', {'internal': [], 'quiescent': [], 'driven': []})
+    extra['internal'].append(fw.Case(f'internal_ok init {lbls}', data))
+    if res.lingered is not None and res.trigger_order is not None:
+        prefix = [l for l, o in zip(tr.labels, tr.origin) if o < res.trigger_order]
+        extra['quiescent'].append(fw.Case(f'quiescent_after {cq.clist(prefix)} && negb (returned_with {cq.clist(prefix)} ROk)',
+                                          {'scenario': describe(sc), 'labels': prefix}))
+        ctx.count('internal_tie', 'quiescent-where-the-operator-lingered')
+    trig_labels = [i for i, l in enumerate(tr.labels) if l in ('StopFlag', 'Cancel', 'Signal')]
+    if tr.result is not None and len(trig_labels) == 1 and res.lingered is None and not sc['trigger'].get('second'):
+        prefix = tr.labels[:trig_labels[0] + 1]
+        extra['driven'].append(fw.Case(f'driven_to_return {cq.clist(prefix)} 400', {'scenario': describe(sc), 'labels': prefix}))
+        ctx.count('internal_tie', 'driven-to-return-after-' + tr.labels[trig_labels[0]])
     ctx.cov['traces_validated_against_impl'] += 1
     ctx.count('labels', 'total', len(tr.labels))
     for l in tr.labels:
@@ -1286,6 +1302,10 @@ def run(ctx: fw.Ctx) -> int:
         check_scenario(ctx, sc, cases)
         ctx.count('source', 'grid')
     ctx.differential('lifecycle_trace', HEADER, cases, shard=40)
+    extra = ctx.__dict__.get('c20_extra', {})
+    ctx.differential('internal_notion', HEADER, extra.get('internal', []), shard=40)
+    ctx.differential('quiescent_where_lingering', HEADER, extra.get('quiescent', []), shard=40)
+    ctx.differential('driven_to_return', HEADER, extra.get('driven', []), shard=40)
     return ctx.finish(RULE, level_note=[
         'T-tie: label traces recorded from real kopf.operator() runs (asyncio task factory, request hook, wrappers of '
         'activities.run_activity / ready flag) are replayed by the Gallina acceptor Model/Lifecycle.v; S-like tie: the table '
